@@ -43,7 +43,7 @@ MANIFEST = dict(
          "times: for every chart, every gap >= 0 and threshold >= 0 and EVERY sorted order of tied notes the result satisfies an "
          "independently written per-column specification (non-last notes filled by the stated rule, last note kept, other "
          "lists unchanged), note count and (column,time) multiset are preserved, no hold passes a later note of its column, the "
-         "last note is kept, the operation is total; the boolean oracle is proved sound. One defect class of the pinned tree is "
+         "last note is kept, the operation is total; the boolean oracle is proved to decide the specification and the per-run correspondence relation is proved to transfer the theorem. One defect class of the pinned tree is "
          "stated as *_refuted theorems with a witness (StepMania: mines/fakes/lifts/keysounds/rolls are stacked in and come back "
          "duplicated) and the property is proved under the guard excluding it. The model is tied to the code on every run by in-Coq correspondence on "
          "charts of all five games, and the oracle is evaluated on the implementation's outputs.",
@@ -208,7 +208,7 @@ def _gen_case(rng, game=None, force=None):
 
 
 def generate(rng, tier):
-    n = 420 if tier == "quick" else 12000
+    n = 640 if tier == "quick" else 12000
     cases = []
     # fixed small cases: the six examples of the test-suite on every game, boundaries of the two thresholds
     for game in GAMES:
